@@ -58,6 +58,7 @@ def bodyDefect (r : Route) (k : MethodKind) : Body → Bool
   | .parseFail _ => true
   | .badMeta _ => r != .exchange
   | .badParams _ => r != .exchange || k == .exchanger
+  | .badValue _ => r != .exchange          -- parameters travel on unary and init requests only
 
 /-- the defects of a request class, listed in the reference implementation's order of precedence -/
 def defects (rq : Req) : List Defect :=
